@@ -39,7 +39,9 @@ EXPLANATION = (
   "the assumption 'engine at rest => recompute_map empty', checked as the shape of a successful "
   "apply_user_actions: _update_loop without ignore_other_changes only returns with an empty "
   "recompute_map, _bring_all_up_to_date runs it that way, and every possibly dirtying step of "
-  "apply_user_actions is followed by _bring_all_up_to_date. R4: the revert the first cut relies "
+  "apply_user_actions is followed by _bring_all_up_to_date, and the auto-removal pass is repeated "
+  "after every recalculation until it reports nothing (nothing stays queued for a later Calculate "
+  "to emit). R4: the revert the first cut relies "
   "on replays exactly the undo actions recorded since the checkpoint (_undo_to_checkpoint slices "
   "out_actions.undo from the checkpointed *undo* length to the end and hands all of it to "
   "ApplyUndoActions). Not decided: the state after a "
@@ -312,7 +314,8 @@ def r3_at_rest(run, w):
                 "loop only returns empty-handed, the full recalculation runs it unrestricted, and "
                 "every dirtying step of apply_user_actions is followed by a full recalculation",
                 floor=5)
-  run.assume("engine at rest (after a successful bundle or load) => recompute_map is empty; "
+  run.assume("engine at rest (after a successful bundle or load) => recompute_map is empty and no "
+             "auto-removal is queued (so a Calculate emits nothing); "
              "removal of unused lookup helpers after the loop dirties nothing (they have no "
              "dependents: remove_node_if_unused)")
   inl = inliner(w)
@@ -418,6 +421,19 @@ def r3_at_rest(run, w):
     if not ok:
       wit = acfg.describe_path(acfg.path(n.id, {acfg.exit.id}, removed=recalc, after=True))
     run.ob(R3, au.qualname, what, why, ok, witness=wit, fi=au.fi, node=n.stmt)
+  # the removal pass is repeated until it reports nothing: a recalculation may queue further
+  # auto-removals (cascades); left queued at rest, they would be emitted by the next Calculate
+  asks = au.nodes_calling(lambda c, nm, f: endswith(nm, "docmodel.apply_auto_removes"))
+  if not asks:
+    raise AnalysisError("apply_user_actions: apply_auto_removes call not found")
+  for r in sorted(recalc):
+    ok = acfg.postdominated_by(r, asks)
+    run.ob(R3, au.qualname, "self._bring_all_up_to_date() ... self.docmodel.apply_auto_removes() again",
+           "after every full recalculation the queued auto-removals are applied (again) before the "
+           "bundle ends, until a pass reports nothing: nothing is left queued for a later Calculate "
+           "to emit", ok, fi=au.fi, node=acfg.nodes[r].stmt,
+           witness=None if ok else acfg.describe_path(acfg.path(r, {acfg.exit.id}, removed=asks,
+                                                                after=True)))
   # the loop test's contract: falsy means nothing was removed
   ar = inl.fn("docmodel.DocModel.apply_auto_removes")
   aex = expander(ar)
@@ -639,6 +655,13 @@ VARIANTS = [
       self._bring_all_up_to_date()
 """,
    """    self.docmodel.apply_auto_removes()
+""", "C29-R3"),
+  ("auto-removes-single-round", EN,
+   """    while self.docmodel.apply_auto_removes():
+      self._bring_all_up_to_date()
+""",
+   """    if self.docmodel.apply_auto_removes():
+      self._bring_all_up_to_date()
 """, "C29-R3"),
   ("no-recalc-after-user-actions", EN,
    """    # Note that recalculations and auto-removals get included after processing all useractions.
